@@ -797,10 +797,22 @@ package erpc
 // ---- C06: whatever is received, the reader ends in the disconnect routine -------
 //@ ghost global disconnectRuns int
 //@ ghost global postDisconnectRuns int
-//@ trusted (*pluginSingleContainer).postDisconnect
+// disconnect hooks: user code acting through the BaseSession API (ages only; it cannot
+// change the session status). The stage itself is verified: every plugin that
+// implements the hook fires once, in container order, up to the first veto (C09).
+//@ iface erpc.PostDisconnectPlugin.PostDisconnect
+//@   params self sess
 //@   flags libframe
-//@   modifies as(sess, type(*session)).sessionAge, as(sess, type(*session)).contextAge, ghost.postDisconnectRuns
+//@   modifies as(sess, type(*session)).sessionAge, as(sess, type(*session)).contextAge
+//@   ghostset ghost.trace = tcat(old(ghost.trace), ev(self, type(PostDisconnectPlugin)))
+//@ func (*pluginSingleContainer).postDisconnect
+//@   property C09
+//@   flags libframe
+//@   modifies as(sess, type(*session)).sessionAge, as(sess, type(*session)).contextAge, ghost.postDisconnectRuns, ghost.trace
 //@   ghostset ghost.postDisconnectRuns = old(ghost.postDisconnectRuns) + 1
+//@   loop 0: invariant[in-order-once] $idx >= -1 && $idx < len(p.plugins) && ghost.trace == trS(rowof(p.plugins), off(p.plugins), $idx + 1, type(PostDisconnectPlugin), old(ghost.trace))
+//@   ensures[all-in-order] statOK(result) ==> ghost.trace == trS(rowof(p.plugins), off(p.plugins), len(p.plugins), type(PostDisconnectPlugin), old(ghost.trace))
+//@   ensures[stops-at-first-veto] !statOK(result) ==> (exists k int :: 0 < k && k <= len(p.plugins) && ghost.trace == trS(rowof(p.plugins), off(p.plugins), k, type(PostDisconnectPlugin), old(ghost.trace)) && ifc(rowof(p.plugins)[off(p.plugins) + k - 1], type(PostDisconnectPlugin)))
 // disconnect handling. Trusted for its callers (frame assumed); under C02 its body is
 // verified for one thing: unless the session is already closed or closing
 // passively, the pending calls are swept (cancel loop) on every path, also when
